@@ -113,6 +113,7 @@ type DataSpec struct {
 	Flag    bool   `json:"flag"`
 	Variant int    `json:"variant"`
 	Depth   int    `json:"depth,omitempty"` // recursion bound for data-bounded recursive components
+	Alt     int    `json:"alt,omitempty"`   // alternative Go types for the scalar values (map shape): the same names carry other types in other operations
 }
 
 // WriterSpec is the destination writer: FailAt < 0 never fails; otherwise the
